@@ -16,7 +16,7 @@
  *   WRITABLE c<N>                  EPOLLOUT event
  *   ACCEPTFAIL <jet|http|uds> <errno>     next accept on that listener fails
  *   ADVANCE <ns>                   virtual clock; expired timers become readable (one batch, creation order)
- *   EPOLL <h>:<IN|OUT|INOUT|ERR> ...      explicit batch (h = c<N> | t<N> | l<jet|http|uds>)
+ *   EPOLL <h>:<IN|OUT|INOUT|ERR|HUP|INHUP> ...   explicit batch (h = c<N> | t<N> | l<jet|http|uds>)
  *   ALLOCFAIL <n>                  the n-th allocation from now fails (1 = next)
  *   EPCTLFAIL <n>                  the n-th EPOLL_CTL_ADD from now fails with ENOSPC
  *   JUNK <byte>                    fill pattern for fresh allocations
@@ -999,6 +999,8 @@ static bool exec_line(char *line)
 			else if (strcmp(colon + 1, "OUT") == 0) ev = EPOLLOUT;
 			else if (strcmp(colon + 1, "INOUT") == 0) ev = EPOLLIN | EPOLLOUT;
 			else if (strcmp(colon + 1, "ERR") == 0) ev = EPOLLERR | EPOLLHUP;
+			else if (strcmp(colon + 1, "HUP") == 0) ev = EPOLLHUP;                 /* orderly hang-up, nothing to read flagged */
+			else if (strcmp(colon + 1, "INHUP") == 0) ev = EPOLLIN | EPOLLHUP;       /* data and hang-up in one event (unix sockets) */
 			if (fd < 0 || !fds[fd].open || !fds[fd].registered) { out("BADBATCH %s not registered", items[i]); continue; }
 			batch_add(fd, ev);
 		}
